@@ -146,6 +146,23 @@ def run(chk):
                              steps=[s["op"] for s in prog["steps"]]) if k % 60 == 7 else None)
         fam = prog.get("family")
         replay(chk, prog, expect, "NumPy", k, rng, 1 if fam in ("rechunk", "store", "shard", "region") else nch, stats)
+    # ---- (C) single-operation sweep: every generator function on its own, biased to 3-d inputs, several parameter draws
+    ALL = ["unary", "binary", "cmp", "where", "reduce", "argred", "cum", "reshape", "permute", "expand", "squeeze", "flip", "roll",
+           "repeat", "tile", "concat", "stack", "unstack", "broadcast_to", "index", "rechunk", "astype", "matmul", "tensordot", "outer",
+           "tril", "take", "moveaxis", "scalar", "diff", "clip", "map_blocks", "vecdot", "searchsorted", "pad", "isin", "cumprod",
+           "matrix_transpose", "overlap", "nan", "count_nonzero"]
+    per = 7 if chk.tier == "quick" else 40
+    for kind in ALL:
+        for j in range(per):
+            try:
+                prog, nv = programs.gen_program(rng, max_steps=1, allow=[kind], ndim=rng.choice([3, 3, 2, 1]))
+            except RuntimeError:
+                continue
+            if not prog["steps"]:
+                continue
+            expect = [np.asarray(nv[o]) for o in prog["outs"]]
+            chk.case(key=("C", str(prog["steps"]), str([i["shape"] for i in prog["inputs"]])), nontrivial=True)
+            replay(chk, prog, expect, "single-op", 1, rng, 1, stats)
     chk.extra.update(stats)
 
 
